@@ -72,6 +72,12 @@ def run_case(case):
             z = rebound.Simulation(rt.save_bytes(x))
             reattach(z, spec)
             must_equal(x, z, 'restored snapshot')
+            for obj, lab in ((y, 'copy'), (z, 'restored snapshot')):
+                for iv in range(int(obj.N_var_config)):
+                    vc = obj.var_config[iv]
+                    counters['var_config_owner_checks'] = counters.get('var_config_owner_checks', 0) + 1
+                    if not vc._sim or ctypes.addressof(vc._sim.contents) != ctypes.addressof(obj):
+                        viol.append(dict(mech='copy:shares-memory:var_config[].sim', msg='configuration %d (order %d) of the %s does not point at its own simulation' % (iv, vc.order, lab)))
             # evolve both
             k = case['k']
             treemode = spec.get('gravity') == 'tree' or spec.get('collision') in ('tree', 'linetree')
@@ -130,6 +136,22 @@ def run_case(case):
         if c.N > 0:
             c.particles[0].x += 1.0
             c.particles[c.N - 1].m *= 2.0
+        # variational configurations carry a back pointer to their simulation: edits made through the COPY's configuration objects
+        # (first and second order, test-particle) must land in the copy, never in the source
+        for iv in range(int(c.N_var_config)):
+            vc = c.var_config[iv]
+            counters['var_config_edits_through_copy'] = counters.get('var_config_edits_through_copy', 0) + 1
+            owner = ctypes.addressof(vc._sim.contents) if vc._sim else 0
+            if owner != ctypes.addressof(c):
+                viol.append(dict(mech='copy:shares-memory:var_config[].sim', msg='configuration %d (order %d) of the copy points at %s' % (iv, vc.order, 'the SOURCE simulation' if owner == ctypes.addressof(x) else hex(owner))))
+                break
+            try:
+                vp = vc.particles
+                if len(vp):
+                    vp[0].x += 0.125
+            except Exception as e_:
+                viol.append(dict(mech='copy:var_config-unusable', msg='configuration %d of the copy: %s: %s' % (iv, type(e_).__name__, e_)))
+                break
         c.dt *= 0.5
         c.G *= 1.5
         try:
